@@ -22,6 +22,10 @@ def inner_ops(depth):
     if depth <= 0:
         return st.lists(simple, max_size=2)
     sched = st.tuples(st.just('s'), sched_asset, delta, prio, inner_ops(depth - 1)).map(list)
+    if depth >= 2:
+        # a run issued from inside an event action
+        nested_run = st.tuples(st.just('run'), st.sampled_from([0, 0.25, 0.5, 1, 1.5])).map(list)
+        return st.lists(st.one_of(*([sched] * 6 + [simple] * 3 + [nested_run])), max_size=3)
     return st.lists(st.one_of(sched, sched, simple), max_size=3)
 
 
@@ -42,11 +46,14 @@ def nested_pause():
     """The same asset paused twice without an unpause in between, a new event of that asset scheduled between the two
     pauses, the clock advancing in between, then one unpause (and a run so that the resumed events execute)."""
     d = st.sampled_from([0.25, 0.5, 1, 1.5, 2])
+    dl = st.sampled_from([0.5, 1, 2, 3, 4, 6])
 
-    def build(a, d1, d2, d3, p1, p2, adv1, adv2, adv3):
-        return [['s', a, d1, p1, []], ['p', a], ['run', adv1], ['s', a, d2, p2, []], ['run', adv2], ['p', a],
-                ['run', adv3], ['u', a], ['run', d3 + 3]]
-    return st.builds(build, st.sampled_from([1, 2, 3]), d, d, d, prio, prio, d, d, d)
+    def build(a, d1, d2, d3, p1, p2, adv1, adv2, adv3, other, d4, p4):
+        # d1 may be much longer than d2: the asset's paused events are then not in time order; an event of another
+        # asset lies somewhere in between
+        return [['s', a, d1, p1, []], ['s', other, d4, p4, []], ['p', a], ['run', adv1], ['s', a, d2, p2, []],
+                ['run', adv2], ['p', a], ['run', adv3], ['u', a], ['run', d3 + 7]]
+    return st.builds(build, st.sampled_from([1, 2]), dl, d, d, prio, prio, d, d, d, st.just(3), dl, prio)
 
 
 def cases(max_ops, prologue=None, with_past=True, min_ops=8):
@@ -87,3 +94,26 @@ def noise_cases(max_chunks):
     return st.builds(lambda w, chunks: {'weights': w, 'noise': True, 'ops': [o for c in chunks for o in c] + [['run', 21.3]]},
                      st.lists(st.sampled_from(WEIGHTS), min_size=1, max_size=4),
                      st.lists(chunk, min_size=3, max_size=max_chunks))
+
+
+def valid_case(case):
+    """Input domain of E1: priorities above TERMINATE, non-negative delays and durations (used by the minimiser)."""
+    def ok(ops):
+        for op in ops:
+            k = op[0]
+            if k in ('s', 'sa'):
+                if not (isinstance(op[3], (int, float)) and op[3] > 1) or not (isinstance(op[2], (int, float)) and op[2] >= 0):
+                    return False
+                if not ok(op[4]):
+                    return False
+            elif k == 'run':
+                if not (isinstance(op[1], (int, float)) and op[1] >= 0):
+                    return False
+            elif k in ('p', 'u', 'c'):
+                if op[1] == -1:
+                    return False
+            elif k == 'past':
+                if not (op[1] == 'ulp' or (isinstance(op[1], (int, float)) and op[1] > 0)):
+                    return False
+        return True
+    return ok(case.get('ops', []))
